@@ -170,6 +170,7 @@ def translate_c_to_sympy(source_circuit):
     """
 
     from sympy import symbols
+    from sympy.physics.quantum.gate import XGate
 
     GATE_SYMPY = get_sympy_gates()
 
@@ -183,18 +184,24 @@ def translate_c_to_sympy(source_circuit):
         if parameter and isinstance(parameter, str):
             parameter = symbols(parameter, real=True)
 
+        # All control qubits are handed over to sympy (a tuple of indices gives a multi-controlled gate).
+        if gate.control is not None:
+            control = gate.control[0] if len(gate.control) == 1 else tuple(gate.control)
+
         if gate.name in {"H", "X", "Y", "Z"}:
             target_circuit *= GATE_SYMPY[gate.name](gate.target[0])
         elif gate.name in {"T", "S"} and parameter == "":
             target_circuit *= GATE_SYMPY[gate.name](gate.target[0])
         elif gate.name in {"PHASE", "RX", "RY", "RZ"}:
             target_circuit *= GATE_SYMPY[gate.name](gate.target[0], parameter)
+        elif gate.name in {"CNOT", "CX"} and len(gate.control) > 1:
+            target_circuit *= controlled_gate(XGate)(control, gate.target[0])
         elif gate.name in {"CNOT", "CH", "CX", "CY", "CZ", "CS", "CT"}:
-            target_circuit *= GATE_SYMPY[gate.name](gate.control[0], gate.target[0])
+            target_circuit *= GATE_SYMPY[gate.name](control, gate.target[0])
         elif gate.name in {"SWAP"}:
             target_circuit *= GATE_SYMPY[gate.name](gate.target[0], gate.target[1])
         elif gate.name in {"CRX", "CRY", "CRZ", "CPHASE"}:
-            target_circuit *= GATE_SYMPY[gate.name](gate.control[0], gate.target[0], parameter)
+            target_circuit *= GATE_SYMPY[gate.name](control, gate.target[0], parameter)
         else:
             raise ValueError(f"Gate '{gate.name}' not supported on backend SYMPY")
 
